@@ -50,7 +50,7 @@ static atomic_long hold_exits_ok, hold_exits_nothold, queries, odd_status;
 /* service-thread-only state */
 static uint64_t rs; static uint64_t srnd(void) { rs ^= rs >> 12; rs ^= rs << 25; rs ^= rs >> 27; return rs * 2685821657736338717ULL; }
 static uint8_t input[1 << 16]; static size_t inlen, inpos; static long out_bytes, write_refusals; static unsigned p_write = 70;
-static long holds_entered, lockfree_queries_in_handlers, bad_lockfree;
+static long holds_entered, lockfree_queries_in_handlers, bad_lockfree, event_handler_chains;
 static int io_write(char c) { (void)c; if (srnd() % 100 >= p_write) { write_refusals++; return 0; } out_bytes++; return 1; }
 static int io_read(char *c) { if (inpos >= inlen || srnd() % 100 < 20) return 0; *c = (char)input[inpos++]; return 1; }
 static struct cat_io_interface io = { .write = io_write, .read = io_read };
@@ -60,15 +60,20 @@ static cat_return_state ev_handler(const struct cat_command *cmd, uint8_t *d, si
 {
         (void)d; (void)n; (void)m;
         int p = (int)(cmd - cmds);
-        if (p < MAXP) {
-                /* a handler on the event FSM runs once per delivered event when it ends the chain with its first return */
-                if (phase == 1) {
-                        atomic_fetch_add(&delivered[p], 1);
-                        /* the two documented lock-free queries, from the service thread only */
-                        if (cat_get_processed_command(&at, CAT_FSM_TYPE_UNSOLICITED) != cmd) bad_lockfree++;
-                        if (cat_is_unsolicited_event_buffered(&at, cmd, CAT_CMD_TYPE_NONE) != CAT_STATUS_BUSY) bad_lockfree++;
-                        lockfree_queries_in_handlers += 2;
-                }
+        if (p < MAXP && phase == 1) {
+                /* an event is delivered when its handler chain ends: the handler may ask to be called again (NEXT / DATA_NEXT, at most three times per event) before
+                 * it returns a terminal code; every terminal code an event handler can return is used, also the two that release a held command */
+                static int chain;
+                if (cat_get_processed_command(&at, CAT_FSM_TYPE_UNSOLICITED) != cmd) bad_lockfree++;      /* the two documented lock-free queries, from the service thread only */
+                if (cat_is_unsolicited_event_buffered(&at, cmd, CAT_CMD_TYPE_NONE) != CAT_STATUS_BUSY) bad_lockfree++;
+                lockfree_queries_in_handlers += 2;
+                unsigned r = (unsigned)(srnd() % 16);
+                if (r < 5 && chain < 3) { chain++; event_handler_chains++; return (r & 1) ? CAT_RETURN_STATE_NEXT : CAT_RETURN_STATE_DATA_NEXT; }
+                chain = 0;
+                atomic_fetch_add(&delivered[p], 1);
+                if (r == 15) return CAT_RETURN_STATE_HOLD_EXIT_OK;
+                if (r == 14) return CAT_RETURN_STATE_HOLD_EXIT_ERROR;
+                if (r == 13) return CAT_RETURN_STATE_ERROR;
         }
         return (srnd() & 1) ? CAT_RETURN_STATE_DATA_OK : CAT_RETURN_STATE_OK;
 }
@@ -174,9 +179,9 @@ int main(int argc, char **argv)
         for (int p = 0; p < P; p++) { long a = atomic_load(&accepted[p]), d = atomic_load(&delivered[p]); acc += a; del += d; ref += atomic_load(&refused[p]); if (a != d) bad++; }
         printf("{\"producers\":%d,\"cap\":%d,\"seed\":%llu,\"triggers_per_producer\":%ld,\"accepted\":%ld,\"refused_full\":%ld,\"delivered\":%ld,\"producers_with_mismatch\":%d,"
                "\"lock_calls\":%ld,\"handovers\":%ld,\"contended_locks\":%ld,\"service_calls\":%ld,\"holds_entered\":%ld,\"hold_exits_ok\":%ld,\"hold_exits_not_hold\":%ld,\"queries\":%ld,"
-               "\"write_refusals\":%ld,\"lockfree_queries_in_handlers\":%ld,\"bad_lockfree\":%ld,\"lock_failures\":%ld,\"odd_status\":%ld,\"unlock_errors\":%ld,\"frozen_checks\":%ld,\"frozen_violations\":%ld,\"var_read_failures\":%ld,\"per_producer\":[",
+               "\"write_refusals\":%ld,\"lockfree_queries_in_handlers\":%ld,\"bad_lockfree\":%ld,\"lock_failures\":%ld,\"odd_status\":%ld,\"unlock_errors\":%ld,\"frozen_checks\":%ld,\"frozen_violations\":%ld,\"var_read_failures\":%ld,\"event_handler_chains\":%ld,\"per_producer\":[",
                P, (int)CAT_UNSOLICITED_CMD_BUFFER_SIZE, (unsigned long long)seed, T, acc, ref, del, bad, lock_calls, handovers, atomic_load(&contended), services, holds_entered,
-               atomic_load(&hold_exits_ok), atomic_load(&hold_exits_nothold), atomic_load(&queries), write_refusals, lockfree_queries_in_handlers, bad_lockfree, atomic_load(&lock_failures), atomic_load(&odd_status), atomic_load(&unlock_errors), atomic_load(&frozen_checks), atomic_load(&frozen_violations), var_read_failures);
+               atomic_load(&hold_exits_ok), atomic_load(&hold_exits_nothold), atomic_load(&queries), write_refusals, lockfree_queries_in_handlers, bad_lockfree, atomic_load(&lock_failures), atomic_load(&odd_status), atomic_load(&unlock_errors), atomic_load(&frozen_checks), atomic_load(&frozen_violations), var_read_failures, event_handler_chains);
         for (int p = 0; p < P; p++) printf("%s[%ld,%ld,%ld]", p ? "," : "", atomic_load(&accepted[p]), atomic_load(&refused[p]), atomic_load(&delivered[p]));
         printf("]}\n");
         return (bad || atomic_load(&odd_status) || atomic_load(&unlock_errors) || atomic_load(&frozen_violations)) ? 1 : 0;
